@@ -332,7 +332,7 @@ pub fn build_world(seed: u64, idx: u64, out: &mut RunOut) -> World {
   }
   let dcfg = DocCfg::swarm(&mut rk);
   let enc = EncCfg::swarm(&mut rk);
-  let source = rk.weighted(&[4, 8, 3, 2, 1, 1]);
+  let source = rk.weighted(&[4, 8, 3, 2, 1, 1, 1]);
   match source {
     0 => {
       // valid data at rest: corpus
@@ -401,6 +401,16 @@ pub fn build_world(seed: u64, idx: u64, out: &mut RunOut) -> World {
       w.origin = "grammar".into();
       out.probe("src_grammar");
     }
+    6 => {
+      // a legitimately recursive schema and data that recurses (or almost conforms) to depth <= 63
+      let (schema, doc, shape) = recursive_case(&mut rw);
+      w.schema = schema.into_bytes();
+      w.json = Some(to_json(&doc).into_bytes());
+      w.cbor = Some(to_cbor_min(&doc));
+      w.csv = Some("1,2\n".to_string().into_bytes());
+      w.origin = format!("recursive:{}", shape);
+      out.probe("src_recursive");
+    }
     5 => {
       // a huge constant in the schema meets a construct that might iterate over its numeric value
       let (schema, doc) = huge_const_case(&mut rw);
@@ -420,7 +430,9 @@ pub fn build_world(seed: u64, idx: u64, out: &mut RunOut) -> World {
       );
       // exponential-by-construction families stay small here; the growth check measures them
       let n = match f {
-        Family::AliasDiamond | Family::ChoiceOfMaps | Family::SchemaChoiceNest => rw.range(1, 10),
+        // ChoiceOfMaps doubles its text per level: beyond 7 it is only a slow, big input
+        Family::ChoiceOfMaps => rw.range(1, 7),
+        Family::AliasDiamond | Family::SchemaChoiceNest => rw.range(1, 10),
         _ if nesting => *rw.pick(&[4usize, 8, 16, 32, 48, 63, 64]),
         Family::ManyRules | Family::ManyChoices | Family::WideMap | Family::OptionalRun => *rw.pick(&[10usize, 100, 400, 1000]),
         _ => *rw.pick(&[10usize, 100, 1000, 5000]),
@@ -434,7 +446,7 @@ pub fn build_world(seed: u64, idx: u64, out: &mut RunOut) -> World {
     }
   }
   // faults on the data at rest
-  if source != 4 && source != 5 && rk.chance(2, 3) {
+  if source != 4 && source != 5 && source != 6 && rk.chance(2, 3) {
     let nf = rf.range(1, 3);
     let which = rf.below(4);
     let mut log = Vec::new();
